@@ -27,7 +27,9 @@ def wc_gradient_descent(L, gamma, n, wrapper="cvxpy", solver=None, verbose=1):
     **Theoretical guarantee**:
     When :math:`\\gamma \\leqslant \\frac{1}{L}`, an empirically tight theoretical worst-case guarantee is
 
-    .. math:: \\min_{t\\leqslant n} \\|\\nabla f(x_t)\\|^2 \\leqslant \\frac{4}{3}\\frac{L}{n} (f(x_0) - f(x_n)),
+    .. math:: \\min_{t\\leqslant n} \\|\\nabla f(x_t)\\|^2 \\leqslant \\frac{4L}{n \\gamma L (4 - \\gamma L)} (f(x_0) - f(x_n)),
+
+    which is :math:`\\frac{4}{3}\\frac{L}{n}` for :math:`\\gamma = \\frac{1}{L}`,
 
     see discussions in [1, page 190] and [2].
 
@@ -121,7 +123,7 @@ def wc_gradient_descent(L, gamma, n, wrapper="cvxpy", solver=None, verbose=1):
     pepit_tau = problem.solve(wrapper=wrapper, solver=solver, verbose=pepit_verbose)
 
     # Compute theoretical guarantee (for comparison)
-    theoretical_tau = 4 / 3 * L / n
+    theoretical_tau = 4 * L / (n * gamma * L * (4 - gamma * L))
 
     # Print conclusion if required
     if verbose != -1:
